@@ -246,6 +246,38 @@ func projNoti(n *pb.Notification) NotiJ {
 // ---------------------------------------------------------------------------
 // running a case against the real cache
 
+// indexHead is the first element of the index path of a feed entry (what
+// joinPrefixAndPath computes: target dropped, origin first).
+func indexHead(pr, p *pb.Path) (string, bool) {
+	if o := pr.GetOrigin(); o != "" {
+		return o, true
+	}
+	for _, q := range []*pb.Path{pr, p} {
+		if len(q.GetElem()) > 0 {
+			return q.GetElem()[0].GetName(), true
+		}
+		if len(q.GetElement()) > 0 {
+			return q.GetElement()[0], true
+		}
+	}
+	return "", false
+}
+
+// isMetaNoti: a feed entry that concerns only an index path under "meta".
+func isMetaNoti(n *pb.Notification) bool {
+	var p *pb.Path
+	switch {
+	case n.GetAtomic():
+		p = nil
+	case len(n.GetUpdate()) > 0:
+		p = n.GetUpdate()[0].GetPath()
+	case len(n.GetDelete()) > 0:
+		p = n.GetDelete()[0]
+	}
+	h, ok := indexHead(n.GetPrefix(), p)
+	return ok && h == "meta"
+}
+
 func classify(err error) (string, []string) {
 	switch {
 	case err == nil:
@@ -289,6 +321,9 @@ func (r *runner) dump() []DumpJ {
 			n, ok := v.(*pb.Notification)
 			if !ok {
 				panic(fmt.Sprintf("query visited a %T", v))
+			}
+			if len(path) > 0 && path[0] == "meta" {
+				return nil // the cache's own bookkeeping, projected out (see C02Check.v)
 			}
 			out = append(out, DumpJ{Tgt: t, Path: append([]string{}, path...), N: projNoti(n)})
 			return nil
@@ -391,6 +426,9 @@ func runCase(c *Case) {
 		if !ok {
 			panic(fmt.Sprintf("callback got a %T", l.Value()))
 		}
+		if isMetaNoti(n) {
+			return // projected out, as in the dump
+		}
 		r.feed = append(r.feed, projNoti(n))
 	})
 	c.Obs = make([]ObsJ, len(c.Ops))
@@ -403,9 +441,38 @@ func runCase(c *Case) {
 // Gallina
 
 type termer struct {
-	n     *vh.Names
-	ids   map[string]int
-	decls []string
+	n    *vh.Names
+	ids  map[string]int
+	dids map[string]int
+	lets []string // global definitions of notifications and dumps, in dependency order
+}
+
+// intern binds term to a file-level definition <pfx><k> : <typ> and returns
+// its name.
+func (t *termer) intern(pfx, typ, term string) string {
+	key := pfx + "|" + term
+	if id, ok := t.dids[key]; ok {
+		return fmt.Sprintf("%s%d", pfx, id)
+	}
+	id := len(t.dids)
+	t.dids[key] = id
+	t.lets = append(t.lets, fmt.Sprintf("Definition %s%d : %s := %s.\n", pfx, id, typ, term))
+	return fmt.Sprintf("%s%d", pfx, id)
+}
+
+// dump binds a dump list to a local name, shared between steps that observed
+// the same dump.
+func (t *termer) dump(term string) string {
+	if term == "[]" {
+		return term
+	}
+	if id, ok := t.dids[term]; ok {
+		return fmt.Sprintf("d%d", id)
+	}
+	id := len(t.dids)
+	t.dids[term] = id
+	t.lets = append(t.lets, fmt.Sprintf("Definition d%d : list dump_entry := %s.\n", id, term))
+	return fmt.Sprintf("d%d", id)
 }
 
 func (t *termer) str(s string) string { return t.n.Ref(s) }
@@ -435,7 +502,7 @@ func (t *termer) gpath(p *PathJ) string {
 	for i, s := range p.Element {
 		el[i] = t.str(s)
 	}
-	return fmt.Sprintf("(GPath %s %s %s %s)", t.str(p.Target), t.str(p.Origin), vh.List(els), vh.List(el))
+	return t.intern("g", "gpath", fmt.Sprintf("GPath %s %s %s %s", t.str(p.Target), t.str(p.Origin), vh.List(els), vh.List(el)))
 }
 
 func (t *termer) val(v *ValJ) string {
@@ -479,9 +546,9 @@ func (t *termer) noti(n *NotiJ) string {
 	if id, ok := t.ids[term]; ok {
 		return fmt.Sprintf("n%d", id)
 	}
-	id := len(t.decls)
+	id := len(t.ids)
 	t.ids[term] = id
-	t.decls = append(t.decls, term)
+	t.lets = append(t.lets, fmt.Sprintf("Definition n%d : notif := %s.\n", id, term))
 	return fmt.Sprintf("n%d", id)
 }
 
@@ -531,8 +598,8 @@ func (t *termer) op(o *Op) string {
 	panic("op")
 }
 
-func caseTerm(names *vh.Names, c *Case) string {
-	t := &termer{n: names, ids: map[string]int{}}
+func caseTerm(t *termer, c *Case) string {
+	names := t.n
 	steps := make([]string, len(c.Ops))
 	for i := range c.Ops {
 		ob := &c.Obs[i]
@@ -543,18 +610,15 @@ func caseTerm(names *vh.Names, c *Case) string {
 		dump := make([]string, len(ob.Dump))
 		for j := range ob.Dump {
 			d := &ob.Dump[j]
-			dump[j] = fmt.Sprintf("(%s, %s, %s)", t.str(d.Tgt), names.Path(d.Path), t.noti(&d.N))
+			dump[j] = t.intern("e", "dump_entry", fmt.Sprintf("DE %s %s %s", t.str(d.Tgt), t.intern("p", "path", names.Path(d.Path)), t.noti(&d.N)))
 		}
-		steps[i] = fmt.Sprintf("(%s, Obs %s %s %s %s)", t.op(&c.Ops[i]), t.res(ob), vh.List(feed), vh.List(dump), vh.Bool(ob.Mutated))
+		steps[i] = fmt.Sprintf("STEP (%s) %s %s %s %s", t.op(&c.Ops[i]), t.res(ob), vh.List(feed), t.dump(vh.List(dump)), vh.Bool(ob.Mutated))
 	}
 	tg := make([]string, len(c.Targets))
 	for i, s := range c.Targets {
 		tg[i] = t.str(s)
 	}
 	var b strings.Builder
-	for i, d := range t.decls {
-		fmt.Fprintf(&b, "let n%d := %s in ", i, d)
-	}
 	fmt.Fprintf(&b, "(Cfg %s %s [], %s, %s)", vh.Z(c.Cfg.Thr), vh.Bool(c.Cfg.EventDriven), vh.List(tg), vh.List(steps))
 	return b.String()
 }
@@ -586,10 +650,58 @@ func delN(ts int64, prefix *PathJ, p *PathJ) *NotiJ {
 // ---------------------------------------------------------------------------
 // emitter
 
+// caseFile is vh.CaseFile with a per-file table of notification and dump
+// definitions beside the name table (elaboration of the case terms dominates
+// the Coq time; notifications recur across cases).
+type caseFile struct {
+	t     *termer
+	terms []string
+	descs []json.RawMessage
+}
+
+func newCaseFile() *caseFile {
+	return &caseFile{t: &termer{n: vh.NewNames(), ids: map[string]int{}, dids: map[string]int{}}}
+}
+
+func (c *caseFile) Len() int { return len(c.terms) }
+
+func (c *caseFile) add(cs *Case) {
+	c.terms = append(c.terms, caseTerm(c.t, cs))
+	b, err := json.Marshal(cs)
+	if err != nil {
+		panic(err)
+	}
+	c.descs = append(c.descs, b)
+}
+
+func (c *caseFile) write(dir string, k int, require string) error {
+	var b strings.Builder
+	fmt.Fprintf(&b, "From Gnmi Require Import Base.Prelude %s.\nOpen Scope Z_scope.\n", require)
+	b.WriteString(c.t.n.Decls())
+	for _, d := range c.t.lets {
+		b.WriteString(d)
+	}
+	refs := make([]string, len(c.terms))
+	for i, t := range c.terms {
+		fmt.Fprintf(&b, "Definition c%d : ccase := %s.\n", i, t)
+		refs[i] = fmt.Sprintf("c%d", i)
+	}
+	fmt.Fprintf(&b, "Definition cases : list ccase := %s.\n", vh.List(refs))
+	b.WriteString("Definition R := Eval vm_compute in check_all cases.\nPrint R.\n")
+	if err := os.WriteFile(fmt.Sprintf("%s/cases_%d.v", dir, k), []byte(b.String()), 0o644); err != nil {
+		return err
+	}
+	js, err := json.Marshal(c.descs)
+	if err != nil {
+		return err
+	}
+	return os.WriteFile(fmt.Sprintf("%s/cases_%d.json", dir, k), js, 0o644)
+}
+
 type emitter struct {
 	dir      string
 	shard    int
-	cf       *vh.CaseFile
+	cf       *caseFile
 	meta     *vh.Meta
 	limit    int
 	checkLib string
@@ -597,7 +709,7 @@ type emitter struct {
 
 func (e *emitter) add(c *Case) {
 	runCase(c)
-	e.cf.Add(caseTerm(e.cf.Names, c), c)
+	e.cf.add(c)
 	nontrivial := false
 	hasDel, hasRej := false, false
 	for i, o := range c.Ops {
@@ -645,11 +757,11 @@ func (e *emitter) flush() {
 	if e.cf.Len() == 0 {
 		return
 	}
-	if err := e.cf.Write(e.dir, e.shard, "CTree.CTreeModel Path.PathModel Cache.CacheModel Cache.C02Check "+e.checkLib, "ccase", "check_all"); err != nil {
+	if err := e.cf.write(e.dir, e.shard, "CTree.CTreeModel Path.PathModel Cache.CacheModel Cache.C02Check "+e.checkLib); err != nil {
 		vh.Die("write: %v", err)
 	}
 	e.shard++
-	e.cf = vh.NewCaseFile()
+	e.cf = newCaseFile()
 }
 
 func readCases(file string) []Case {
